@@ -34,6 +34,7 @@ type HStep struct {
 	Op   *Op    `json:"op,omitempty"`
 	K    int    `json:"k,omitempty"`
 	Ops  []Op   `json:"ops,omitempty"`
+	Reps int    `json:"reps,omitempty"` // conc: the phase is executed this many times (different schedules)
 }
 
 type HScenario struct {
@@ -177,7 +178,11 @@ func genHistory(prop string, seed uint64, index int, tier string) *HScenario {
 				hh := or.n(nh)
 				ops = append(ops, genOp(or, hh, lens[hh]))
 			}
-			sc.Steps = append(sc.Steps, HStep{Kind: "conc", V: v, Ops: ops, K: or.n(1 << 30)})
+			reps := 1
+			if prop == "C20" {
+				reps = pick(or, []int{1, 5, 20})
+			}
+			sc.Steps = append(sc.Steps, HStep{Kind: "conc", V: v, Ops: ops, K: or.n(1 << 30), Reps: reps})
 		}
 	}
 	// make sure the history ends with checked calls on every value
@@ -565,48 +570,23 @@ func runHistoryT(sc *HScenario, tr *traceReq) *HOutcome {
 		case "wrap":
 			steerWrap(lv.re, st, hb, hs)
 		case "conc":
-			got := make([]string, len(st.Ops))
-			fns := make([]func(), len(st.Ops))
-			for j := range st.Ops {
-				j := j
-				fns[j] = func() { got[j] = execOp(lv.re, &st.Ops[j], hb, hs) }
+			reps := st.Reps
+			if reps < 1 {
+				reps = 1
 			}
-			nsites := 16
-			if globalSites != nil {
-				nsites = len(globalSites.Sites)
-			}
-			if simrt.Current() >= 0 {
-				// already inside a counting run (attribution replay): no nested scheduler,
-				// the calls run one after another
-				for _, f := range fns {
-					f()
-				}
-			} else {
-				simrt.Run(simrt.Config{Policy: simrt.PolRandom, Seed: uint64(st.K), Mean: int64(8 + st.K%200), NumSites: nsites, MaxSteps: 1 << 40}, fns)
+			for rep := 0; rep < reps; rep++ {
+				concPhase(sc, st, si, rep, lv, hb, hs, out, &lh, fail)
 			}
 			out.Nontrivial = true
-			for j := range st.Ops {
-				lh.str(got[j])
-				out.Checked++
-				if sc.Prop == "C20" {
-					continue
-				}
-				want := execOp(freshFor(sc, lv), &st.Ops[j], hb, hs)
-				if got[j] != want && engineDivergence(sc, lv, &st.Ops[j], hb, hs, got[j]) {
-					out.Diverged++
-				} else if got[j] != want {
-					fail(HViolation{Step: si, Kind: "result", What: fmt.Sprintf("%s, run at the same time as %d other call(s) on the used value, differs from a fresh value", st.Ops[j].API, len(st.Ops)-1), Got: trunc(got[j], 300), Want: trunc(want, 300), Longest: lv.longest})
-				}
-			}
 		}
 		if st.Kind == "conc" && len(st.Ops) > maxConc {
 			maxConc = len(st.Ops)
 		}
 		if sc.Prop == "C20" && (st.Kind == "conc" || si == len(sc.Steps)-1) {
 			// I6: a Regex keeps at most one per-search state per caller it ever had at the
-			// same time (+1 for a callback re-entering it, +1 for the single-slot cache)
+			// same time, times two (a callback may re-enter the value once per caller), plus slack
 			for vi, lv := range vals {
-				if n := reachableSearchStates(lv.re, lv.re.VerifEngine().VerifLocalState()); n > maxConc+3 {
+				if n := reachableSearchStates(lv.re, lv.re.VerifEngine().VerifLocalState()); n > 2*maxConc+2 {
 					fail(HViolation{Step: si, Kind: "invariant", What: fmt.Sprintf("value %d keeps %d per-search states alive, but never had more than %d simultaneous callers", vi, n, maxConc)})
 				}
 			}
@@ -626,6 +606,47 @@ func runHistoryT(sc *HScenario, tr *traceReq) *HOutcome {
 	}
 	out.LogHash = uint64(lh)
 	return out
+}
+
+// concPhase runs the calls of a conc step at the same time under the simulated
+// scheduler and checks every result like an op.
+func concPhase(sc *HScenario, st *HStep, si, rep int, lv *liveValue, hb [][]byte, hs []string, out *HOutcome, lh *hasher, fail func(HViolation)) {
+	got := make([]string, len(st.Ops))
+	fns := make([]func(), len(st.Ops))
+	for j := range st.Ops {
+		j := j
+		fns[j] = func() { got[j] = execOp(lv.re, &st.Ops[j], hb, hs) }
+	}
+	nsites := 16
+	if globalSites != nil {
+		nsites = len(globalSites.Sites)
+	}
+	if simrt.Current() >= 0 {
+		// already inside a counting run (attribution replay): no nested scheduler,
+		// the calls run one after another
+		for _, f := range fns {
+			f()
+		}
+	} else {
+		// hand-off points (pool get/put, lock just acquired/released) are preempted
+		// half of the time on top of the random walk: contention on them is what a
+		// concurrent phase is for
+		simrt.Run(simrt.Config{Policy: simrt.PolRandom, Seed: uint64(st.K) + uint64(rep)*977, Mean: int64(8 + st.K%200), NumSites: nsites, MaxSteps: 1 << 40,
+			HotSites: []uint32{1, 2, 3, 4}, HotRate: 32768}, fns)
+	}
+	for j := range st.Ops {
+		lh.str(got[j])
+		out.Checked++
+		if sc.Prop == "C20" {
+			continue
+		}
+		want := execOp(freshFor(sc, lv), &st.Ops[j], hb, hs)
+		if got[j] != want && engineDivergence(sc, lv, &st.Ops[j], hb, hs, got[j]) {
+			out.Diverged++
+		} else if got[j] != want {
+			fail(HViolation{Step: si, Kind: "result", What: fmt.Sprintf("%s, run at the same time as %d other call(s) on the used value, differs from a fresh value", st.Ops[j].API, len(st.Ops)-1), Got: trunc(got[j], 300), Want: trunc(want, 300), Longest: lv.longest})
+		}
+	}
 }
 
 // steerWrap is the "time skip": by real calls only, it brings the generation
